@@ -311,11 +311,20 @@ fn push_event(e: Event) {
     }
 }
 
+/// the value the emulated device supplies to the next port read: mostly random, now and then an edge value (all ones - a
+/// floating bus / PCI master abort -, zero, only the top bit of each width)
 fn io_next(r: &mut Regs) -> u64 {
     let mut x = r.io_state;
     let v = crate::util::splitmix(&mut x);
+    let sel = crate::util::splitmix(&mut x);
     r.io_state = x;
-    v
+    match sel % 16 {
+        0 => u64::MAX,
+        1 => 0,
+        2 => 0x8000_0000_8000_8080,
+        3 => 0xffff_ffff_0000_ffff ^ (v & 0xffff_0000),
+        _ => v,
+    }
 }
 
 /// Try to decode and emulate the instruction at RIP. Returns true if handled.
